@@ -56,7 +56,13 @@ type Pool struct {
 	// default CAN-ID builders obtained from Bus.CANIDBuilder() (at construction and after
 	// SetCANIDBuilder(nil)) and held by the caller while the buses move to other builders
 	defBuilders []*acme.CANIDBuilder
+	// set by a Clone call: the model operations that replay it, and whether the clone (or one of its
+	// children) is an object the pool already holds (a clone must consist of new objects)
+	cloneLines  []string
+	cloneShared bool
 }
+
+func (p *Pool) knownObject(id acme.EntityID) bool { _, ok := p.byID[id]; return ok }
 
 func newPool() *Pool {
 	return &Pool{byID: map[acme.EntityID]int{}, byIface: map[*acme.NodeInterface]int{}, kinds: map[Kind][]int{}}
